@@ -100,6 +100,12 @@ def _cases(tier, seed):
                                 for rep in ("mixed", "int_e"):
                                     yield dict(kind="blockmean", layout=[2, 2], sites=ms, order=order, ncomp=ncomp, w=w, unc=unc,
                                                region=region, center=center, rep=rep)
+                            if ncomp == 2 and not center and region == "given":
+                                # integer-valued weights / data passed with an integer dtype (round 8, seed C10-15: np.reciprocal of an
+                                # integer sum of weights)
+                                for rep in (("int_w", "int_d") if w else ("int_d",)):
+                                    yield dict(kind="blockmean", layout=[2, 2], sites=ms, order=order, ncomp=ncomp, w=w, unc=unc,
+                                               region=region, center=center, rep=rep)
     for k in (1, 2, 3, 4):
         for vec in itertools.product(range(len(VV)), repeat=k):
             forms = ["array", "readonly"]
@@ -189,6 +195,8 @@ def run(case, rec):
         # every point has the same uncertainty: still weights, not "no weights" (seed C10-9)
         wts = [np.full(npts, 0.25 * (c + 1)) for c in range(ncomp)]
     rep = case.get("rep")
+    if rep == "int_w" and wts is not None:
+        wts = [np.round(w_ * 2.0) for w_ in wts]   # 2p+2, 2(n-p)+1, 2^(p+1): integer-valued, still different per point and component
     sc = 4.0 if rep == "int_e" else 1.0
     if rep == "int_e":
         e, n = e * 4.0, n * 4.0   # integer-valued easting with an integer dtype next to a float northing
@@ -216,6 +224,10 @@ def run(case, rec):
         d_arg = tuple(np.asfortranarray(d.reshape(shp)) for d in data)
         if wts is not None:
             w_arg = tuple(np.ascontiguousarray(w.reshape(shp).T).T for w in wts)
+    if rep == "int_w" and wts is not None:
+        w_arg = tuple(w_.astype(np.int64) for w_ in wts)
+    if rep == "int_d":
+        d_arg = tuple(d_.astype(np.int64 if k_ == 0 else np.int32) for k_, d_ in enumerate(data))
     if rep == "series":
         d_arg = permuted_series(data[0]) if ncomp == 1 else tuple(permuted_series(d_, k_) for k_, d_ in enumerate(data))
         if wts is not None:
